@@ -6,6 +6,9 @@ called in the order sample() applies them (overlay export, harness/overlay/sampl
 with the Coq model (coq/Sample/Model.v, exact binary32 arithmetic = Coq's SpecFloat at precision 24) *on the
 implementation's own input to that stage*; exp is an oracle table written by the harness from math.Exp.  The whole of
 Sample is compared too (from the raw logits, by value because ties may be ordered differently).
+Grammar path: the harness writes a tokenizer-only GGUF vocabulary, builds a real sample.Grammar (llama.cpp grammar sampler) and runs
+Sample with it; the model's Sample_grammar takes the rejected-id set as an oracle and re-samples on the masked logits (each id
+with its own logit); the monitor demands an accepted token that is an admissible sample of the logits it was drawn from.
 Monitor: the property itself on what Sample returned (token inside the vocabulary, logit not -Inf, a token and not
 an error whenever some logit is finite, greedy maximum at temperature 0, membership in the top-k / top-p / min-p
 sets in real arithmetic with an error margin, reproducibility of a seeded stream).
@@ -155,6 +158,7 @@ def gen_cases(ctx):
     cases += exhaustive_small(ctx.quick())
     cases += exhaustive_extreme(rng, ctx.quick())
     cases += lonely_and_unfiltered(rng, ctx.quick())
+    cases += grammar_cases(rng, ctx.quick())
     n_cases = 600 if ctx.quick() else 12000
     for i in range(n_cases):
         klass = rng.choice(LOGIT_CLASSES)
@@ -216,13 +220,13 @@ def exhaustive_extreme(rng, quick):
     """every vector of length 1..4 (all orders) over {-Inf, -MaxFloat32, -MaxFloat32/2, smallest subnormal, +-0, MaxFloat32,
     +Inf}, on the greedy path and on the weighted path with every filter off (draws exactly 0, 2^-24, 1-2^-24, 1/2), and -
     lengths <= 3 - with filters on.  All of them run on the implementation and are monitored; in the quick tier the model
-    comparison takes every vector of length <= 3 and a random eighth of length 4 (thorough: all)."""
+    comparison takes every vector of length <= 3 and a random sixteenth of length 4 (thorough: all)."""
     import itertools
     out = []
     for L in range(1, 5):
         for v in itertools.product(EXTREME, repeat=L):
             v = list(v)
-            skip = quick and L == 4 and rng.random() > 0.125
+            skip = quick and L == 4 and rng.random() > 0.0625
             for c in (greedy_case(v, "extreme-greedy"), nofilter(v, "extreme-nofilter")):
                 if skip:
                     c["nocoq"] = True
@@ -258,6 +262,85 @@ def lonely_and_unfiltered(rng, quick):
         out.append(nofilter(v, "unfiltered-ninf-ends", draws=[0, 1, (1 << 24) - 1, (1 << 24) - 2], k=rng.choice([0, 0, -1, -40]),
                             p=rng.choice([1.0, 1.0, 1.5, 7.0]), mp=rng.choice([0.0, 0.0, -1.0, -0.0]), t=rng.choice([1.0, 0.7, 1e-9, 30.0])))
     return out
+
+
+VOCAB_CHARS = "abcdefghijklmnopqrstuvwxyzABCDEFGHIJKLMNOPQRSTUVWXYZ0123456789"   # id 3+i <-> VOCAB_CHARS[i]; ids 0..2 special
+
+
+def grammar_cases(rng, quick):
+    """grammar-constrained Sample with the real llama.cpp grammar sampler (grammar  root ::= [accept]+  over a 65-token
+    vocabulary written by the harness): unsorted logits, top_k disabled in every spelling (and sometimes enabled), the
+    first pick usually rejected (the arg-max is outside the accepted set, first draw often exactly 0), -Inf logits among the
+    accepted and the rejected tokens.  Finite logits are pairwise distinct: which of two *equal* logits is picked first is
+    not specified (pdqsort / heap), and with a grammar that choice would decide between the fast and the slow path."""
+    out = []
+    for _ in range(360 if quick else 6000):
+        n = rng.choice([4, 5, 8, 13, 14, 30, 65, rng.randint(4, 65)])
+        vals = set()
+        while len(vals) < n:
+            kind = rng.random()
+            x = rng.gauss(0, 4) if kind < 0.7 else rng.gauss(0, 1) + rng.choice([8, 12]) if kind < 0.9 else rng.choice([1e30, -1e30, 3e38, -3e38]) * rng.random()
+            b = f2b(x)
+            if is_fin_b(b) and b2f(b) != 0:
+                vals.add(b)
+        logits = list(vals)
+        order = rng.random()
+        if order < 0.25:
+            logits.sort(key=b2f)                      # ascending: the sort reverses everything
+        elif order < 0.35:
+            logits.sort(key=b2f, reverse=True)
+        else:
+            rng.shuffle(logits)
+        q = rng.choice([0.15, 0.3, 0.5, 0.8])
+        acc = [i for i in range(3, n) if rng.random() < q] or [rng.randrange(3, n)]
+        best = max(range(n), key=lambda i: b2f(logits[i]))
+        if rng.random() < 0.7 and best in acc and len(acc) > 1:
+            acc.remove(best)
+        if rng.random() < 0.45:                      # -Inf logits, among accepted and rejected ids
+            for i in rng.sample(range(n), rng.randint(1, max(1, n // 3))):
+                if not (i in acc and sum(1 for j in acc if logits[j] != NINF) <= 1):
+                    logits[i] = NINF
+        k = rng.choice([0, 0, -1, n, n + 1, n + 7, n, 0, 3, n - 1])
+        t = rng.choice([1.0, 1.0, 0.5, 0.8, 2.0, 1e-9, 0.0])
+        p = rng.choice([1.0, 1.0, 0.9, 0.5, 1.5])
+        mp = rng.choice([0.0, 0.0, 0.05, 0.3, -1.0])
+        M = (1 << 24) - 1
+        draws = [[0, 0], [0, 1 << 23], [0, M], [rng.randrange(1 << 24), rng.randrange(1 << 24)], [M, rng.choice([0, 1, M])], [1 << 23, rng.randrange(1 << 24)]]
+        out.append({"op": "grammar", "logits": logits, "accept": "".join(VOCAB_CHARS[i - 3] for i in acc), "temp": f2b(t), "topk": k, "topp": f2b(p), "minp": f2b(mp),
+                    "draws": rng.sample(draws, 4), "klass": "grammar" + ("-topk-off" if k <= 0 or k >= n else "-topk-on") + ("-greedy" if t == 0 else "")})
+    return out
+
+
+def monitor_grammar(ctx, c, o):
+    """the property on a grammar-constrained call: the token is accepted by the grammar, and it is an admissible sample of
+    the logits it must have been drawn from - the raw logits when the first pick was accepted (one draw consumed), the
+    masked logits (every id with its own logit, rejected ids -Inf) when Sample re-sampled (two draws)"""
+    if "panic" in o:
+        return [({"class": "panic", "path": "grammar"}, "Sample with a grammar panicked: %s" % o["panic"])]
+    found = []
+    n = len(c["logits"])
+    rej = o["rejected"]
+    masked = [NINF if rej[i] else b for i, b in enumerate(c["logits"])]
+    for id_, err, used in zip(o["ids"], o["errs"], o["used"]):
+        if err == "" and 0 <= id_ < n and rej[id_]:
+            found.append(({"class": "grammar-rejected-token"}, "Sample returned token %d which the grammar rejects" % id_))
+            continue
+        resampled = used == 2 or (b2f(o["params"]["temp"]) == 0 and err == "" and 0 <= id_ < n and b2f(c["logits"][id_]) < max(b2f(b) for b in c["logits"]))
+        src = masked if resampled else c["logits"]
+        for sig, what in monitor_sample(ctx, {"logits": src}, {"params": o["params"], "ids": [id_], "errs": [err], "rs": [0]}):
+            found.append((dict(sig, path="grammar-resample" if resampled else "grammar-first-pick"),
+                          what + ("  [grammar: re-sampled under the mask; logits of the accepted ids: %r]" % [b2f(b) for b in masked if b != NINF][:8] if resampled else "  [grammar: first pick]")))
+    return found
+
+
+def render_grammar(c, o):
+    if "panic" in o or "harness_error" in o:
+        return [("harness answered (grammar)", "false")]
+    rejected = zl([i for i, r in enumerate(o["rejected"]) if r])
+    tab = tabl(o.get("exp") or [])
+    calls = "[" + ";".join("(%s,%s,%s,%s,%s)" % (z(rs[0]), z(rs[1]), z(id_), cq_bool(err != ""), z(used))
+                           for id_, err, used, rs in zip(o["ids"], o["errs"], o["used"], o["rs"])) + "]"
+    return [("Sample_grammar", F("chk_grammar %s %s %s %s %s %s %s %s", tab, c["temp"], c["topk"], c["topp"], c["minp"], zl(c["logits"]), rejected, calls))]
 
 
 def boundary_cases(cases, obs, rng, limit):
@@ -605,6 +688,14 @@ def evaluate(ctx, binp, cases, tag):
             if not structure_ok(o):
                 ctx.mismatch("stage outputs keep the ids of topK's output / topP and minP return prefixes", c, o)
             nontriv = ok_tok and len(c["logits"]) > 1 and b2f(o["params"]["temp"]) != 0 and isinstance(st, dict) and len(st.get("topk", [])) > 1
+        elif c["op"] == "grammar":
+            found = monitor_grammar(ctx, c, o) if "harness_error" not in o else []
+            its = [([n_], t_, None) for n_, t_ in render_grammar(c, o)]
+            if o.get("exp"):
+                tables.append(o["exp"])
+            nontriv = any(u == 2 for u in o.get("used", [])) and any(e == "" for e in o.get("errs", []))
+            ctx.count("grammar-calls-resampled", sum(1 for u in o.get("used", []) if u == 2))
+            ctx.count("grammar-calls-first-pick-accepted", sum(1 for u in o.get("used", []) if u == 1))
         else:
             found = monitor_seed(ctx, c, o)
             its = [([n_], t_, None) for n_, t_ in render_seed(c, o)]
@@ -658,7 +749,7 @@ def evaluate(ctx, binp, cases, tag):
                 ctx.violation(sig_, what_ + "  (found by searching around a model/implementation disagreement at %s)" % sorted(set(failed)),
                               {"case": m_, "impl": o_, "disagreeing_case": cases[ci]})
         ctx.mismatch("Sample/Corr: model and implementation differ at %s" % sorted(set(failed)), cases[ci], obs[ci], shown)
-    draws_seen = [r for o in obs if isinstance(o, dict) for r in (o.get("rs") or [])]
+    draws_seen = [r for o in obs if isinstance(o, dict) for x in (o.get("rs") or []) for r in (x if isinstance(x, list) else [x])]
     bad_draws = [r for r in draws_seen if not (0.0 <= b2f(r) < 1.0)]
     ctx.obligation("hypothesis draw_ok: the %d draws rng.Float32() delivered are numbers in [0,1) (%s)" % (len(draws_seen), tag), not bad_draws, str(bad_draws[:5]))
     if bad_draws:
@@ -704,7 +795,8 @@ def run(ctx):
                 "..., 3e38), top-k (<=0, 1, n-1, n, n+1, ...), top-p and min-p (0, 1, out of range, ...), 2-4 scripted draws each (0, 1-2^-24, random) plus a "
                 "second pass with draws next to the cumulative-sum boundaries; exhaustively every vector of length 1..4 over {-Inf, -MaxFloat32, -MaxFloat32/2, min subnormal, "
                 "+-0, MaxFloat32, +Inf} on the greedy path and with every filter off (draws exactly 0, 2^-24, 1-2^-24, 1/2); -Inf vectors with one finite entry; "
-                "-Inf planted first/last with all filters off; seeded streams of 2-8 vectors.  non-trivial = temperature > 0, more than one "
+                "-Inf planted first/last with all filters off; grammar-constrained calls with the real llama.cpp grammar sampler (65-token vocabulary, grammar root ::= [accept]+, "
+                "unsorted / ascending logits, top_k in {0,-1,n,n+1,...}, arg-max rejected, -Inf logits, draw pairs incl. exactly 0); seeded streams of 2-8 vectors.  non-trivial = temperature > 0, more than one "
                 "token survives top-k and a token is returned (seed: seeded and a token returned); distinct = by canonical JSON of the case")
     ctx.trusted = ["Coq 8.16.1 kernel + vm_compute", "Coq standard library SpecFloat (binary32 arithmetic of the model) and Flocq 4.1 BinarySingleNaN (its correctness theorems)",
                    "hand-written model coq/Sample/Model.v, tied to sample/samplers.go and sample/transforms.go by this differential run only",
@@ -713,7 +805,7 @@ def run(ctx):
                    "python generator and monitor (props/c18.py); math/rand/v2, container/heap, slices.SortFunc are not modelled (topK is compared by value)"]
     ctx.assumptions = ["logits contain no NaN and temperature/top-p/min-p are numbers (not NaN; temperature not infinite) in the theorems and in the monitor's token clauses; with NaN only 'no panic, id in range' is demanded (stages are still compared exactly)",
                        "exp oracle: values in [0,1] on non-positive arguments, exp(+-0)=1, exp(-Inf)=+0, exp(NaN)=NaN, monotone on non-positive arguments - tested on every table entry and on the probe, not proved",
-                       "grammar == nil (the grammar path calls the same sample() on masked logits; it needs a llama.cpp vocabulary)",
+                       "grammar: the set of ids the grammar rejects is an oracle of the model (read off the real llama.cpp grammar sampler by the harness); grammar cases use pairwise distinct finite logits (with equal logits the unspecified tie order of topK would decide between the fast and the re-sample path)",
                        "topK tie order is not predicted (pdqsort / heap): compared by value and membership; the theorems hold for every legal tie order",
                        "the model describes /repo with fixes/C18-softmax-overflow.patch applied"]
     ctx.proof_stage(["Sample"], "Sample/Properties_C18.v", extra_targets=["Sample/Corr.v"])
